@@ -255,8 +255,8 @@ PROPS["C04"] = {
 }
 
 _POOL_TRUST = ["pyvc VC generator (/verif/pyvc)", "z3", "Python semantics as listed in DESIGN.md §2.3",
-               "demonic queue environment (DESIGN §5.1): queues deliver every item exactly once, in any order, at any time; the pigeonhole "
-               "facts of the channel model (received <= sent, all received when the counts agree) are assumed",
+               "demonic queue environment (DESIGN §5.1): queues deliver every item exactly once, in any order, at any time (the pigeonhole "
+               "facts of the channel model - received <= sent, all received when the counts agree - are lemmas proved by induction)",
                "rely/guarantee composition (DESIGN §5.2): consumer verified against the feeder's step R applied before every read of a shared "
                "flag and every environment call; feeder verified to establish J and R after every shared write; sequentially consistent "
                "attribute reads/writes (GIL)",
